@@ -36,10 +36,55 @@ def _origin(hist, sr, mid):
     return None
 
 
+def _trigger_times(sr):
+    times = set()
+    if sr.exp_t not in (None, INF):
+        times.add(sr.exp_t)
+    if sr.crit is not None:
+        times.add(sr.crit[1])
+    if sr.fin is not None and not sr.degenerate:
+        times.add(sr.fin[1])
+    return times
+
+
+def nested_trigger_tie(hist):
+    """a scheduler's closing trigger in the very instant in which a scheduler
+    nested below it (and not the cause of that trigger) has one of its own:
+    whether the nested run gets to handle its own trigger before it is
+    cancelled depends on the order of the instant"""
+    for sid in hist.sched_ids():
+        sr = hist.sr(sid)
+        if sr.begin is None:
+            continue
+        trig = []           # (time, ids of the members that caused it)
+        if sr.exp_t not in (None, INF):
+            trig.append((sr.exp_t, ()))
+        if sr.crit is not None:
+            trig.append((sr.crit[1], (sr.crit[2],)))
+        if sr.fin is not None and not sr.degenerate:
+            trig.append((sr.fin[1], tuple(
+                mh.nid for mh in sr.finite
+                if mh.finished() and mh.finished()[1] == sr.fin[1])))
+        for t, causes in trig:
+            excluded = set()
+            for cid in causes:
+                excluded.update(hist.subtree_ids(cid, include_self=True))
+            for did in hist.subtree_ids(sid):
+                dh = hist.nodes[did]
+                if not dh.is_sched or did in excluded:
+                    continue
+                dsr = hist.sr(did)
+                if dsr.begin is not None and t in _trigger_times(dsr):
+                    return True
+    return False
+
+
 def tie_at_trigger(hist):
     """does some closing trigger (expiry, critical raise) share its instant
     with another job event (start, or end by return/raise) anywhere below the
     scheduler it closes?"""
+    if nested_trigger_tie(hist):
+        return True
     for sid in hist.sched_ids():
         sr = hist.sr(sid)
         if sr.begin is None:
@@ -90,6 +135,8 @@ def tie_at_trigger(hist):
 def trigger_tie(hist):
     """two different closing triggers of one scheduler in the same instant:
     then even the verdict depends on the order of the instant"""
+    if nested_trigger_tie(hist):
+        return True
     for sid in hist.sched_ids():
         sr = hist.sr(sid)
         if sr.begin is None:
